@@ -78,7 +78,8 @@ def main():
     res = {}
     for n in names:
         ov = overlay_for(n)
-        cmd = ['/verif/bin/gosmt', 'check', cid, '--tier', tier, '--overlay', ','.join(f'{k}={v}' for k, v in ov.items())]
+        root = os.environ.get('VERIF_ROOT', '/verif')
+        cmd = [root + '/bin/gosmt', 'check', cid, '--tier', tier, '--overlay', ','.join(f'{k}={v}' for k, v in ov.items())]
         if only: cmd += ['--only', only]
         env = dict(os.environ, VERIF_EVIDENCE_DIR='/verif/.work/mut/evidence')
         p = subprocess.run(cmd, capture_output=True, text=True, env=env)
